@@ -3,10 +3,14 @@ C20 — executable model of `Grid.compute_geometry` (porepy/grids/grid.py: `_com
 `_compute_geometry_2d`, `_compute_geometry_3d`) and of the plane / line fitting helpers
 `compute_tangent`, `compute_normal` (porepy/geometry/map_geometry.py).  Core Lean only.
 
-Numbers are rationals, points and vectors live in ℚ³.  Wherever the code takes a square root
-(`np.sqrt`, `np.linalg.norm`) the model applies an abstract function `sq : K → K`, which is a
-parameter of every definition: the theorems hold for every `sq`, the driver instantiates it with a
-rational square root that is accurate to 2⁻⁶⁴ (`asqrt`).
+The model is generic over the scalar type `K` (core type classes only: field operations, casts from ℕ / ℤ —
+numerals are written as casts — and a decidable order): the driver runs it with `K = Rat`, the theorems
+are proved for every linearly ordered field and instantiated at ℝ.  Wherever the code takes a square root
+(`np.sqrt`, `np.linalg.norm`) the model applies a function `sq : K → K`, which is a parameter of every
+definition: the theorems hold for every `sq`; over ℝ it is `Real.sqrt`, the driver uses a rational square root
+that is accurate to 2⁻⁶⁴ (`asqrt`).  `rotation_matrix`, `project_plane_matrix` / `project_line_matrix` and
+`map_grid` (porepy/geometry/map_geometry.py) are modelled as well, with `cos (arccos c) = c`,
+`sin (arccos c) = √(1 − c²)` in place of the trigonometric functions.
 
 Grids are handed over "resolved": the harness gathers the node coordinates of every face and the
 faces of every cell (that gathering is numpy/scipy glue), in the order of the csc storage of
@@ -128,10 +132,11 @@ def subFrom (m p : V3 K) : V3 K := sub p m
 /-- vectors from the centre of the point cloud -/
 def centred (pts : List (V3 K)) : List (V3 K) := pts.map (subFrom (mean pts))
 
+/-- the point farthest from the mean, relative to the mean (`tangent[:, max_ind]`) -/
+def tangentRaw (pts : List (V3 K)) : V3 K := (centred pts).getD (argmax ((centred pts).map norm2)) zero
+
 /-- `compute_tangent(pts)`: the point farthest from the mean, normalised -/
-def tangent (sq : K → K) (pts : List (V3 K)) : V3 K :=
-  let d := centred pts
-  normalize sq (d.getD (argmax (d.map norm2)) zero)
+def tangent (sq : K → K) (pts : List (V3 K)) : V3 K := normalize sq (tangentRaw pts)
 
 /-- index of the longest centred vector (`v1_ind`) -/
 def pnI1 (sq : K → K) (pts : List (V3 K)) : Nat := argmax ((centred pts).map (nrm sq))
@@ -420,6 +425,89 @@ def geom3 (sq : K → K) (g : Grid3 K) : Out K :=
     cc := g.cells.map (cellCen3 sq) }
 
 def geom3Err (sq : K → K) (g : Grid3 K) : Bool := g.cells.any fun c => negTet (cellEdges sq c)
+
+/-! ### map_geometry: `rotation_matrix`, `project_plane_matrix`, `project_line_matrix`, `map_grid` -/
+
+/-- the reference direction `[0, 0, 1]` of `project_plane_matrix` / `project_line_matrix` -/
+def ez : V3 K := ⟨((0 : Nat) : K), ((0 : Nat) : K), ((1 : Nat) : K)⟩
+def Mat3.one : Mat3 K := ⟨⟨((1 : Nat) : K), ((0 : Nat) : K), ((0 : Nat) : K)⟩, ⟨((0 : Nat) : K), ((1 : Nat) : K), ((0 : Nat) : K)⟩, ⟨((0 : Nat) : K), ((0 : Nat) : K), ((1 : Nat) : K)⟩⟩
+def Mat3.add (A B : Mat3 K) : Mat3 K := ⟨V3.add A.r1 B.r1, V3.add A.r2 B.r2, V3.add A.r3 B.r3⟩
+def Mat3.smul (c : K) (A : Mat3 K) : Mat3 K := ⟨V3.smul c A.r1, V3.smul c A.r2, V3.smul c A.r3⟩
+def Mat3.mul (A B : Mat3 K) : Mat3 K :=
+  ⟨⟨dot A.r1 B.c1, dot A.r1 B.c2, dot A.r1 B.c3⟩, ⟨dot A.r2 B.c1, dot A.r2 B.c2, dot A.r2 B.c3⟩,
+   ⟨dot A.r3 B.c1, dot A.r3 B.c2, dot A.r3 B.c3⟩⟩
+/-- the matrix `W` of `rotation_matrix`: `W u = v × u` -/
+def skew (v : V3 K) : Mat3 K := ⟨⟨((0 : Nat) : K), -v.z, v.y⟩, ⟨v.z, ((0 : Nat) : K), -v.x⟩, ⟨-v.y, v.x, ((0 : Nat) : K)⟩⟩
+
+/-- `np.allclose(vect, np.zeros(3))` (default `atol = 1e-8`) -/
+def isSmall (v : V3 K) : Bool :=
+  decide (rabs v.x ≤ ((1 : Nat) : K) / ((100000000 : Nat) : K)) && decide (rabs v.y ≤ ((1 : Nat) : K) / ((100000000 : Nat) : K)) &&
+    decide (rabs v.z ≤ ((1 : Nat) : K) / ((100000000 : Nat) : K))
+
+/-- `rotation_matrix(a, vect)` with `s = sin a`, `c = cos a`: the identity for a (numerically) zero axis, else
+    `I + s W + (1 − c) W²`, `W = skew (vect / |vect|)` -/
+def rotationMatrix (sq : K → K) (s c : K) (vect : V3 K) : Mat3 K :=
+  if isSmall vect then Mat3.one else
+    let W := skew (normalize sq vect)
+    Mat3.add (Mat3.add Mat3.one (Mat3.smul s W)) (Mat3.smul (((1 : Nat) : K) - c) (Mat3.mul W W))
+
+/-- `np.clip(x, -1, 1)` -/
+def clip1 (c : K) : K := if c < -((1 : Nat) : K) then -((1 : Nat) : K) else if ((1 : Nat) : K) < c then ((1 : Nat) : K) else c
+
+/-- `project_plane_matrix(pts, normal = n)` / `project_line_matrix(pts, tangent = n)` with the default reference
+    `[0,0,1]` for a vector `n` the code has just normalised: `rotation_matrix(arccos(clip(n·ref)), n × ref)`;
+    `cos (arccos c) = c` and `sin (arccos c) = √(1 − c²)` are used in place of the trigonometric functions -/
+def projectMatrix (sq : K → K) (n : V3 K) : Mat3 K :=
+  let c := clip1 (dot n ez)
+  rotationMatrix sq (sq (((1 : Nat) : K) - c * c)) c (cross n ez)
+
+/-- closed form of the same matrix for a unit vector `n` (rational in `n`): `I + [v]ₓ + [v]ₓ² / (1 + n·ref)`,
+    `v = n × ref` -/
+def rodrigues (n : V3 K) : Mat3 K :=
+  Mat3.add (Mat3.add Mat3.one (skew (cross n ez)))
+    (Mat3.smul (((1 : Nat) : K) / (((1 : Nat) : K) + dot n ez)) (Mat3.mul (skew (cross n ez)) (skew (cross n ez))))
+
+/-- `Σ_j |x_j − x_0|` over one coordinate row of the rotated face centres -/
+def rowSpread (l : List K) : K :=
+  match l with
+  | [] => ((0 : Nat) : K)
+  | a :: _ => rsum (l.map fun b => rabs (b - a))
+
+/-- result of `map_grid`: rotation, mask of the active dimensions, and the rotated (not yet masked) fields -/
+structure MapOut (K : Type) where
+  R : Mat3 K
+  mx : Bool
+  my : Bool
+  mz : Bool
+  cc : List (V3 K)
+  fn : List (V3 K)
+  fc : List (V3 K)
+  nodes : List (V3 K)
+
+/-- `not np.isclose(check, 0, atol=tol, rtol=0)` with `tol = 1e-5` -/
+def activeDim (x tot : K) : Bool := !decide (rabs (x / tot) ≤ ((1 : Nat) : K) / ((100000 : Nat) : K))
+
+/-- `map_grid(g)` for a 1-D or 2-D grid (no rotation given): rotate the line / plane of the grid onto a
+    coordinate axis / plane and find out which coordinates vary -/
+def mapGrid (sq : K → K) (dim : Nat) (nodes : List (V3 K)) (o : Out K) : MapOut K :=
+  let R := if dim = 2 then projectMatrix sq (planeNormal sq nodes) else projectMatrix sq (tangent sq nodes)
+  let fc := o.fc.map R.mulVec
+  let cx := rowSpread (fc.map (·.x))
+  let cy := rowSpread (fc.map (·.y))
+  let cz := rowSpread (fc.map (·.z))
+  let tot := cx + cy + cz
+  { R := R, mx := activeDim cx tot, my := activeDim cy tot, mz := activeDim cz tot,
+    cc := o.cc.map R.mulVec, fn := o.fn.map R.mulVec, fc := fc, nodes := nodes.map R.mulVec }
+
+/-- relative gap between the largest entry and the largest entry at another index (0 for a tie, 1 for a
+    single entry): how safely `np.argmax` is decided -/
+def argmaxMargin (l : List K) : K :=
+  let i := argmax l
+  let best := l.getD i ((0 : Nat) : K)
+  let others := (zipIdx l).filter (fun p => p.1 != i)
+  match others with
+  | [] => ((1 : Nat) : K)
+  | p :: ps => (best - (ps.foldl (fun m q => if m < q.2 then q.2 else m) p.2)) / best
 
 /-! ### elementary quantities named in the property theorems -/
 
